@@ -35,6 +35,19 @@ def run (t : Tier) : Emit Unit := do
         let d : PSIData := { pointerField := 0, sections := [s] }
         emit "C13" { op := "writePSI", args := [("psi", d.toJson)], model := showWrite (writePSIData d),
                      spec := some (showWrite (.ok (Spec.unitEncode 0 [bs] 0))), tag := "write-" ++ kindName k ++ (if big then "-large" else "") }
+  -- (1b) PMT with descriptors at the top of the 8-bit length range, in the programme loop and in an ES loop
+  for n in [250, 251, 252, 253, 254, 255] do
+    for where_ in [0, 1] do
+      let body ← liftGen (randBytes n)
+      let d : Descriptor := { tag := 0x80 + n % 16, length := n, userDefined := body }
+      let pmt : PMTData := { elementaryStreams := [{ elementaryPID := 0x100, elementaryStreamDescriptors := if where_ = 1 then [d] else [], streamType := 6 }],
+                             pcrPID := 0x100, programDescriptors := if where_ = 0 then [d] else [], programNumber := 1 }
+      let sh ← liftGen (genSyntaxHeader 1)
+      let (s, bs) := mkSection 2 false (some sh) { pmt := some pmt }
+      let psi : PSIData := { pointerField := 0, sections := [s] }
+      emit "C13" { op := "writePSI", args := [("psi", psi.toJson)], model := showWrite (writePSIData psi),
+                   spec := some (showWrite (.ok (Spec.unitEncode 0 [bs] 0))), tag := "write-PMT-max-descriptor" }
+      emit "C13" (parseCase (Spec.unitEncode 0 [bs] 0) (some psi) "parse-PMT-max-descriptor")
   -- (2) several sections per unit (mixed kinds)
   for _ in [0:100 * t.scale] do
     let n ← liftGen (randRange 2 5)
